@@ -296,6 +296,7 @@ class PathEval:
         self.env = {}
         self.mem = {}
         self.conds = []   # (discr tree, value or ('not', values...), block)
+        self._facts = {}  # by-value tree -> [known equal to, set of values known unequal]
         self.calls = []   # (block, tree)
         self.writes = []  # (place tree, value tree, block)
         self.inliner = inliner
@@ -409,6 +410,30 @@ class PathEval:
                 if cc is False:
                     self.infeasible = True
                 return
+            # what the path knows about by-value quantities (parameters, Move getters): `x == 3` here and `x == 4`, or
+            # a `match x { 4 => ..}` arm, there cannot both hold
+            fact = None
+            if cc in (("in", (0,)), ("notin", (0,))) and d[0] == "bin" and d[1] == "Eq":
+                kx = [x for x in (d[2], d[3]) if x[0] == "c" and isinstance(x[1], int) and not isinstance(x[1], bool)]
+                vx = [x for x in (d[2], d[3]) if x[0] != "c"]
+                if len(kx) == 1 and len(vx) == 1 and _params_only(vx[0]):
+                    fact = (vx[0], "eq" if cc == ("notin", (0,)) else "ne", (kx[0][1],))
+            elif cc[0] in ("in", "notin") and d[0] != "c" and _params_only(d) and all(isinstance(v_, int) for v_ in cc[1]) and t.get("discr_ty") != "bool":
+                fact = (d, "eq" if cc[0] == "in" and len(cc[1]) == 1 else ("among" if cc[0] == "in" else "ne"), tuple(cc[1]))
+            if fact is not None:
+                x_, kind_, vals_ = fact
+                eqs_, nes_ = self._facts.setdefault(x_, [None, set()])
+                if kind_ == "eq":
+                    if (eqs_ is not None and eqs_ != vals_[0]) or vals_[0] in nes_:
+                        self.infeasible = True
+                    self._facts[x_][0] = vals_[0]
+                elif kind_ == "ne":
+                    if eqs_ is not None and eqs_ in vals_:
+                        self.infeasible = True
+                    nes_.update(vals_)
+                elif kind_ == "among":
+                    if eqs_ is not None and eqs_ not in vals_:
+                        self.infeasible = True
             # the same by-value test taken both ways on one path: infeasible (only for conditions over parameters
             # and constants: they cannot change between the two tests)
             if cc in (("in", (0,)), ("notin", (0,))) and _params_only(d):
